@@ -212,7 +212,7 @@ class AbstractEventLoop(metaclass=ABCMeta):
         :param wait_on_signal: Signal we are waiting for.
         :type wait_on_signal: Class based on `simpleline.event_loop.AbstractSignal`.
         """
-        return self._processed_signals.take_ticket(wait_on_signal.__name__)
+        return self._processed_signals.take_ticket(wait_on_signal)
 
     def _mark_signal_processed(self, signal):
         """Mark that processes waiting on this signal that they are able to go.
@@ -220,7 +220,7 @@ class AbstractEventLoop(metaclass=ABCMeta):
         :param signal: Signal which was processed.
         :type signal: Class based on `simpleline.event_loop.AbstractSignal`.
         """
-        self._processed_signals.mark_line_to_go(signal.__class__.__name__)
+        self._processed_signals.mark_line_to_go(signal.__class__)
 
     def _check_if_signal_processed(self, wait_on_signal, unique_id):
         """Check if the signal was processed.
@@ -231,7 +231,7 @@ class AbstractEventLoop(metaclass=ABCMeta):
         :param unique_id: Unique id returned by the `self._register_wait_on_signal()` method.
         :type unique_id: int
         """
-        return self._processed_signals.check_ticket(wait_on_signal.__name__, unique_id)
+        return self._processed_signals.check_ticket(wait_on_signal, unique_id)
 
 
 class EventHandler():
